@@ -86,3 +86,9 @@ def trunc_float_form(case, msg):
         return False
     form = p[{"C": 4, "O": 3, "W": 4}[p[0]]]
     return form in ("H", "M")
+
+
+def huge_repetitions(case, msg):
+    """F8: recurrence text whose repetition count has 9 or more digits; the only symptom is the time limit."""
+    text = case.meta.get("text", "")
+    return bool(re.match(r"^R\d{9,}/", text)) and ("HANG" in msg or "hang" in msg)
